@@ -39,7 +39,10 @@ def run_one(mod, line):
         if isinstance(e, (KeyboardInterrupt, SystemExit)):
             raise
         r = vals.classify(e)
-    return engine % 100, vals.dump(r)
+    try:
+        return engine % 100, vals.dump(r)
+    except Exception:  # noqa – the library handed back something that is not a value of the observation grammar
+        return engine % 100, vals.dump(vals.Err(996))
 
 
 def main():
